@@ -295,18 +295,18 @@ func gen(w *kit.Out, r *kit.Rand, tier string) {
 		for _, l := range strings.Split(b[pick][1], "\n") {
 			w.Op("%s", l)
 		}
-		for i := 0; i < 2; i++ {
-			w.Case(fmt.Sprintf("r%d", i))
-			w.Op("open mn6y ms1y")
-			randomHistory(w, r.Fork(), 6, 7, 30)
-		}
+		w.Case("r0")
+		w.Op("open mn6y ms1y")
+		randomHistory(w, r.Fork(), 7, 7, 22)
 		w.Case("malformed")
 		malformed(w, r.Fork(), 40)
-		w.Op("restart")
-		malformed(w, r.Fork(), 10)
 		w.Op("tx u0 hi add;a")
-		w.Op("restart")
+		malformed(w, r.Fork(), 10)
+		w.Op("restart") // mid-block: not allowed
 		w.Op("open mn6y")
+		w.Op("commit")
+		w.Op("restart")
+		w.Op("tx u1 hi call;a;set;0;1;-")
 		w.Op("commit")
 		return
 	}
